@@ -6,10 +6,8 @@ import numpy as np
 
 def plain(x):
     """numpy -> Python, tuple -> list, mapping -> dict (recursively)."""
-    if x is None or isinstance(x, (str, bool, int, float)):
-        return x
-    if isinstance(x, bytes):
-        return x.decode("utf8")
+    # numpy scalars first: np.float64 *is* a float and np.str_ a str, but
+    # they compare by numpy's rules (np.float64(2.0**53) == 2**53 + 1)
     if isinstance(x, np.bool_):
         return bool(x)
     if isinstance(x, np.integer):
@@ -18,6 +16,10 @@ def plain(x):
         return float(x)
     if isinstance(x, np.str_):
         return str(x)
+    if x is None or isinstance(x, (str, bool, int, float)):
+        return x
+    if isinstance(x, bytes):
+        return x.decode("utf8")
     if isinstance(x, np.ndarray):
         return [plain(v) for v in x.tolist()]
     if isinstance(x, dict):
